@@ -2,6 +2,7 @@ import Hyeong.Driver.Enc
 import Hyeong.Driver.NumOps
 import Hyeong.Driver.BigOps
 import Hyeong.Driver.ExecOps
+import Hyeong.Driver.OptOps
 /-!
 hydrv — the model driver: answers the same one-line operations as harness/ (hyverif) from the
 formal model (`m.` prefix = Hyeong.Model, `s.` prefix = Hyeong.Spec). Imports core-only files.
@@ -39,6 +40,9 @@ def dispatch (f : List String) : String :=
   | ["m.bigparse", b, t] => mBigParse b t
   | ["s.bigstr", b, a] => sBigStr b a
   | ["s.bigparse", b, t] => sBigParse b t
+  | ["m.opt", l, p] => optOp l p
+  | ["m.exec", "run1", p, i, _] => runOptOp "1" p i
+  | ["m.exec", "run2", p, i, _] => runOptOp "2" p i
   | ["m.exec", mode, p, i, mx] => execOp false mode p i mx
   | ["s.exec", mode, p, i, mx] => execOp true mode p i mx
   | _ => "BADOP"
